@@ -155,12 +155,6 @@ class VoronoiFPS(GreedySelector):
         calculation along the whole matrix.
         """
         n_to_select_from = X.shape[0]
-        self.vlocation_of_idx = np.full(n_to_select_from, 1)
-        # index of the voronoi cell associated with each of the columns of X
-
-        self.dSL_ = np.zeros(n_to_select, float)
-        # distance between new selected point and previously
-        # selected points
 
         if self.full_fraction is None:
             simple_fps_timing = -time()
@@ -212,6 +206,15 @@ class VoronoiFPS(GreedySelector):
                     "Switching point should be real and more than 0 and less than 1. "
                     f"Received {self.full_fraction}"
                 )
+
+        # the bookkeeping of an earlier search is only discarded once the switching point
+        # has been accepted: a rejected call leaves a fitted selector as it was
+        self.vlocation_of_idx = np.full(n_to_select_from, 1)
+        # index of the voronoi cell associated with each of the columns of X
+
+        self.dSL_ = np.zeros(n_to_select, float)
+        # distance between new selected point and previously
+        # selected points
 
         super()._init_greedy_search(X, y, n_to_select)
 
